@@ -125,8 +125,12 @@ def release_thread():
 
 
 def set_thread_mode(asynchronous):
-    """False (default): defer_to_thread runs synchronously (the repository's own test switch).  True: results arrive in a later turn."""
+    """False / "sync" (default): defer_to_thread runs synchronously (the repository's own test switch).  True / "async": results arrive in a later
+    turn.  "held": results arrive when the scheduler (vf/sched.py step) or the case's own loop releases them."""
     import allmydata.util.cputhreadpool as ctp
+    if isinstance(asynchronous, str):
+        hold_threads(asynchronous == "held")
+        asynchronous = asynchronous in ("async", "held")
     ctp._DISABLED = not asynchronous
 
 
